@@ -830,7 +830,6 @@ func c06LearnTable(c *Ctx) {
 	}
 }
 
-
 // randomText: under the success of its random source, fn returns (prefix + text derived from that source, nil) and
 // reports the source's failure. The source is a call of uuid.NewRandom in fn, or a call of another package function of
 // which the same holds with an empty prefix (CreateBranch built on CreateTag).
